@@ -33,6 +33,10 @@ MUTANTS = [
  ('H_new_unused_helper', 'src/message/avp/header.rs', 'impl Header {\n    pub const LENGTH: u16 = 6;', 'impl Header {\n    pub const LENGTH: u16 = 6;\n\n    #[allow(dead_code)]\n    pub fn total_length(&self) -> u16 {\n        self.payload_length + Self::LENGTH\n    }', [], ALLP),
  ('H_avp_write_local_rename', 'src/message/avp.rs', 'let end_position = writer.len();\n        let length = end_position - start_position;\n\n        let is_hidden', 'let end = writer.len();\n        let length = end - start_position;\n\n        let is_hidden', [], ALLP),
  ('H_greedy_comment_and_reorder', 'src/message/avp.rs', 'result.push(Err(DecodeError::UnsupportedVendorId(header.vendor_id)));\n                reader.skip_bytes(header.payload_length as usize);', 'reader.skip_bytes(header.payload_length as usize);\n                result.push(Err(DecodeError::UnsupportedVendorId(header.vendor_id)));', [], ALLP),
+ ('H_err_identity_control_len', 'src/message/control_message.rs', 'if (length as usize) < FIXED_LENGTH {\n            return Err(vec![DecodeError::IncompleteControlMessageHeader]);', 'if (length as usize) < FIXED_LENGTH {\n            return Err(vec![DecodeError::IncompleteControlMessagePayload]);', [], ALLP),
+ ('H_err_value_avplen', 'src/message/avp.rs', 'result.push(Err(DecodeError::InvalidAVPLength(header.payload_length)));', 'result.push(Err(DecodeError::InvalidAVPLength(header.payload_length + 6)));', [], ALLP),
+ ('H_data_err_variant', 'src/message/data_message.rs', 'return Err(DecodeError::IncompleteDataMessagePayload);', 'return Err(DecodeError::MessageReadError);', [], ALLP),
+ ('H_flags_err_variant', 'src/message/flags.rs', 'return Err(DecodeError::IncompleteFlags);', 'return Err(DecodeError::MessageReadError);', [], ALLP),
 ]
 
 def main():
